@@ -86,15 +86,16 @@ def astar[S](
         if current in closed:
             continue
 
+        # Nodes beyond the cost limit are neither expanded nor accepted as goal: a goal reached through them may have a
+        # cheaper route through a pruned node, so its cost would not be the shortest distance. They are not closed
+        # either: with weight > 1 a node can be popped through a detour first and still be reached within the limit
+        if max_cost is not None and g[current] > max_cost:
+            continue
+
         iterations += 1
         closed.add(current)
         if _verif.ENABLED:  # pragma: no cover
             _verif.emit("settle", solver="astar", node=current, label=g[current])
-
-        # Nodes beyond the cost limit are neither expanded nor accepted as goal: a goal reached through them may have a
-        # cheaper route through a pruned node, so its cost would not be the shortest distance
-        if max_cost is not None and g[current] > max_cost:
-            continue
 
         if is_goal(current):
             path = reconstruct_path(parent, current)
